@@ -33,6 +33,15 @@ var strTemplates = []strTemplate{
 	{"bytes-independent", 1, nil, []string{"string"}, "\tb := []byte(s)\n\tif len(b) > 0 {\n\t\tb[0] = 65\n\t}\n\tfmt.Println(string(b))\n\treturn s\n", true},
 	{"rune-string", 0, []Param{{"r", "rune"}}, []string{"string"}, "\treturn string(r)\n", false},
 	{"byte-string", 0, []Param{{"b", "byte"}}, []string{"string"}, "\treturn string(rune(b))\n", false},
+	{"byte-string-direct", 0, []Param{{"b", "byte"}}, []string{"string"}, "\treturn string(b)\n", false},
+	{"index-string", 1, []Param{{"i", "int"}}, []string{"string"}, "\treturn string(s[i])\n", false},
+	{"bytes-elem-string", 1, []Param{{"i", "int"}}, []string{"string"}, "\tb := []byte(s)\n\treturn string(b[i])\n", false},
+	{"int-string", 0, []Param{{"r", "int"}}, []string{"string"}, "\treturn string(rune(r))\n", false},
+	{"index-rune", 1, []Param{{"i", "int"}}, []string{"rune"}, "\treturn rune(s[i])\n", false},
+	{"index-int", 1, []Param{{"i", "int"}}, []string{"int"}, "\treturn int(s[i]) * 3\n", false},
+	{"concat-index", 1, []Param{{"i", "int"}}, []string{"string"}, "\treturn s + string(s[i]) + string(rune(s[i]))\n", false},
+	{"bytes-literal", 1, []Param{{"i", "int"}, {"b", "byte"}}, []string{"string"}, "\treturn string([]byte{s[i], b, 0xff, 'a'})\n", false},
+	{"len-conv", 0, []Param{{"b", "byte"}, {"r", "rune"}}, []string{"int"}, "\treturn len(string(b))*10 + len(string(r))\n", false},
 	{"eq", 2, nil, []string{"bool"}, "\treturn s == t\n", false},
 	{"neq", 2, nil, []string{"bool"}, "\treturn s != t\n", false},
 	{"lt", 2, nil, []string{"bool"}, "\treturn s < t\n", false},
